@@ -168,7 +168,11 @@ def run_differential(prog, script, fail: Callable[[str, Optional[str]], None], c
                         # compile without sending, fill in the template values, commit
                         sub = conn.compile()
                         if sub is not None:
-                            sub.instantiate(conn.app_id, tv)
+                            ahead["pre"] = ahead.get("pre", 0) + 1
+                            if sub.arguments or ahead["pre"] % 2:
+                                sub.instantiate(conn.app_id, tv)
+                            else:
+                                count("precompiled_committed_without_instantiate", 1)     # nothing to fill in: committed as compiled
                             conn.commit_subroutine(sub, block=callback is None, callback=callback)
                         elif callback is not None:
                             callback()
